@@ -283,6 +283,24 @@ def gen_att_sweeps(rng, tier):
     return scen
 
 
+def gen_att_edges(rng):
+    """distance ranges whose width is not a round number: exactly at, just inside and beyond the maximum distance"""
+    scen = []
+    for rng_ in ((1.0, 42.0), (5.0, 60.0), (3.0, 50.0), (10.0, 120.0), (1.0, 100.0), (2.0, 63.0), (0.0, 41.0), (7.0, 54.0)):
+        for ease in (0, 1, 2):
+            sc = geo_cfg("att-edge", 1, rng_, True, ease, 0)
+            lo, hi = int(rng_[0]), int(rng_[1])
+            l, R = rvec(rng, 3), rng.choice(ROTS)
+            for d in sorted({lo, lo + 1, (lo + hi) // 2, hi - 1, hi, hi + 1, hi + 5, 2 * hi, 100 * hi}):
+                for axis in range(3):
+                    e = list(l)
+                    e[axis] += d
+                    sc["obs"].append({"l": l, "e": e, "R": R, "rel": 0})
+            sc["obs"].sort(key=lambda o: sum((o["e"][i] - o["l"][i]) ** 2 for i in range(3)))
+            scen.append(sc)
+    return scen
+
+
 def triples(rng, sc, n, rad, q=1):
     """base rendering, its mirror image, and a rigidly moved copy"""
     for _ in range(n):
@@ -427,7 +445,7 @@ def run(tier):
     t0 = time.time()
     life = gen_life(tier)
     log("behaviour generation %.1fs (%d behaviours)" % (time.time() - t0, len(life)))
-    geo = gen_att_sweeps(rng, tier) + gen_ear(rng, tier) + gen_far(rng, tier) + gen_degenerate(rng, tier)
+    geo = gen_att_sweeps(rng, tier) + gen_att_edges(rng) + gen_ear(rng, tier) + gen_far(rng, tier) + gen_degenerate(rng, tier)
     # a distance mapping installed through the handle (with a tween), then the emitter moves
     geo += [{"kind": "vmap", "cls": "vmap", "d": d, "x1": x1, "x2": x2, "src": "grid-vmap"}
             for d in (0, 2) for x1, x2 in ((3, 12), (10, 2), (0, 16), (8, 8), (16, 5))]
@@ -435,6 +453,9 @@ def run(tier):
     geo += [{"kind": "glide", "cls": "glide", "sk": sk, "w": w, "d": d, "t": t, "e": e, "st": st, "src": "grid-glide"}
             for sk, w in (("imm", 1), ("clk", 1), ("clk", 2)) for d in (0, 1, 3)
             for t, e, st in (([4.0, 0.0, 0.0], [2.0, 0.0, 1.0], 750), ([-3.0, 2.0, 5.0], [-2.0, 1.0, -2.0], 1000), ([0.0, 0.0, -6.0], [0.0, 3.0, 0.0], 0))]
+    # ... and commanded right after listener and track were created (before their first callback)
+    geo += [{"kind": "glide", "cls": "glide", "sk": "imm", "w": 1, "d": d, "t": t, "e": e, "st": 750, "fresh": True, "src": "grid-glide-fresh"}
+            for d in (0, 2) for t, e in (([4.0, 0.0, 0.0], [2.0, 0.0, 1.0]), ([32.0, 0.0, -64.0], [-2.0, 1.0, -2.0]))]
     # a listener, a spatial track bound to it and a sound, all created while the audio thread is before the n-th drain of its rings
     geo += [{"kind": "pickup", "cls": "pickup", "n": n, "src": "directed-pickup"} for n in range(1, 10)]
     scen = life + geo
